@@ -208,6 +208,11 @@ class _Fold(ast.NodeTransformer):
 
     def visit_BinOp(self, node):
         self.generic_visit(node)
+        if _has_mark(node) and isinstance(node.op, ast.Add) and type(node.left) is type(node.right) and isinstance(node.left, (ast.Tuple, ast.List)) \
+                and _is_literal(node.left) and _is_literal(node.right):
+            self.count += 1
+            new = type(node.left)(elts=list(node.left.elts) + list(node.right.elts), ctx=ast.Load())
+            return _mark(ast.copy_location(new, node))
         if _has_mark(node):
             ok1, a = _const(node.left)
             ok2, b = _const(node.right)
@@ -501,7 +506,14 @@ def _propagate_constants(modules, ref_names, report) -> set:
             cc = {}
             for b in cnode.body:
                 for t in _targets(b):
-                    if f"{cnode.name}.{t}" not in refn and _is_immutable_literal(b.value):
+                    if f"{cnode.name}.{t}" in refn:
+                        continue
+                    if cc and not _is_immutable_literal(b.value):
+                        # built from earlier new class constants (bare names in the class body): substitute and fold
+                        v2 = _Fold().visit(_Subst(dict(cc)).visit(copy.deepcopy(b.value)))
+                        if _is_immutable_literal(v2):
+                            b.value = v2
+                    if _is_immutable_literal(b.value):
                         cc[t] = b.value
             if not cc:
                 continue
@@ -692,7 +704,7 @@ def _expand_table_code(fn, allow_unmarked: bool, report) -> int:
                         continue
             for fld in ("body", "orelse", "finalbody"):
                 b = getattr(st, fld, None)
-                if isinstance(b, list) and b and isinstance(b[0], ast.stmt) and not isinstance(st, FuncT + (ast.ClassDef,)):
+                if isinstance(b, list) and b and isinstance(b[0], ast.stmt) and not isinstance(st, (ast.ClassDef,)):
                     rec(b)
             if isinstance(st, ast.Try):
                 for h in st.handlers:
@@ -1043,6 +1055,7 @@ def _bind(c: Candidate, call: ast.Call, receiver):
 
 
 _COUNTER = [0]
+_CM_ENV: list = []
 
 
 def _instantiate(c: Candidate, call: ast.Call, receiver, want_expr: bool):
@@ -1224,6 +1237,138 @@ def _instantiate_cm(c: Candidate, call: ast.Call, receiver, w: ast.With):
     return out
 
 
+
+def _class_cm_expand(w: ast.With, modules, ref_names, by_name_any, receiver_of):
+    """with Cls(args) [as v]: BODY  /  with obj.m(args): BODY  where m is a NEW method `return Cls(args')` and Cls is a NEW
+    class whose __init__ only stores its parameters, with simple __enter__/__exit__ :
+        ->  <__enter__ body>; [v = <enter value>]; try: BODY finally: <__exit__ body>
+    Conditions: __exit__ does not look at its exception arguments and returns False/None (does not swallow)."""
+    call = w.items[0].context_expr
+    if not isinstance(call, ast.Call):
+        return None
+    # step 1: a new method that only constructs the scope object
+    f = call.func
+    nm = f.attr if isinstance(f, ast.Attribute) else (f.id if isinstance(f, ast.Name) else None)
+    ctor = call
+    recv = f.value if isinstance(f, ast.Attribute) else None
+    meth = by_name_any.get(nm)
+    if meth is not None:
+        mfn, mcls = meth
+        e = _expr_form(mfn.body)
+        if e is None or not isinstance(e, ast.Call) or not isinstance(e.func, ast.Name):
+            return None
+        cand = Candidate("", mcls, mfn)
+        cand.ok = True
+        try:
+            bound = _bind(cand, call, recv if recv is not None else ast.Name(id="self", ctx=ast.Load()))
+        except _NoInline:
+            return None
+        if not all(_simple_arg(v) or isinstance(v, ast.Constant) for v in bound.values()):
+            return None
+        ctor = _Subst(bound, mark=False).visit(copy.deepcopy(e))
+    if not isinstance(ctor.func, ast.Name):
+        return None
+    cname = ctor.func.id
+    cnode = None
+    for mname, mi in modules.items():
+        for n in mi.tree.body:
+            if isinstance(n, ast.ClassDef) and n.name == cname and cname not in ref_names.get(mname, {cname}):
+                cnode = n
+    if cnode is None or cnode.bases or cnode.decorator_list:
+        return None
+    methods = {b.name: b for b in cnode.body if isinstance(b, FuncT)}
+    if set(methods) - {"__init__", "__enter__", "__exit__"} or not {"__init__", "__enter__", "__exit__"} <= set(methods):
+        return None
+    init, enter, exit_ = methods["__init__"], methods["__enter__"], methods["__exit__"]
+    # __init__: self.a = p   only
+    fields = {}
+    for st in _strip_doc(init.body):
+        if isinstance(st, ast.Assign) and len(st.targets) == 1 and isinstance(st.targets[0], ast.Attribute) and isinstance(st.targets[0].value, ast.Name) \
+                and st.targets[0].value.id == "self" and isinstance(st.value, ast.Name):
+            fields[st.targets[0].attr] = st.value.id
+        else:
+            return None
+    cand = Candidate("", cname, init)
+    cand.ok = True
+    try:
+        bound = _bind(cand, ctor, ast.Name(id="self", ctx=ast.Load()))
+    except _NoInline:
+        return None
+    if not all(_simple_arg(v) or isinstance(v, ast.Constant) for k, v in bound.items() if k != "self"):
+        return None
+    fieldval = {a: bound[p_] for a, p_ in fields.items() if p_ in bound}
+    if len(fieldval) != len(fields):
+        return None
+
+    class SelfAttr(ast.NodeTransformer):
+        def __init__(self):
+            self.bad = False
+
+        def visit_Attribute(self, n):
+            self.generic_visit(n)
+            if isinstance(n.value, ast.Name) and n.value.id == "self":
+                if n.attr in fieldval and isinstance(n.ctx, ast.Load):
+                    return copy.deepcopy(fieldval[n.attr])
+                self.bad = True
+            return n
+
+        def visit_Name(self, n):
+            if n.id == "self":
+                self.bad = self.bad or not isinstance(getattr(n, "_parent_ok", None), bool)
+            return n
+    # __exit__: no use of the exception arguments, returns False/None
+    ex_params = [a.arg for a in exit_.args.args[1:]]
+    ex_body = _strip_doc(exit_.body)
+    if any(isinstance(n, ast.Name) and n.id in ex_params for st in ex_body for n in ast.walk(st)):
+        return None
+    if ex_body and isinstance(ex_body[-1], ast.Return):
+        rv = ex_body[-1].value
+        if not (rv is None or (isinstance(rv, ast.Constant) and rv.value in (False, None))):
+            return None
+        ex_body = ex_body[:-1]
+    if _contains(ex_body, (ast.Return, ast.Yield)):
+        return None
+    en_body = _strip_doc(enter.body)
+    en_val = None
+    if en_body and isinstance(en_body[-1], ast.Return):
+        en_val = en_body[-1].value
+        en_body = en_body[:-1]
+    if _contains(en_body, (ast.Return, ast.Yield)):
+        return None
+
+    def conv(stmts):
+        out = []
+        for st in stmts:
+            t = SelfAttr()
+            c = t.visit(copy.deepcopy(st))
+            if any(isinstance(n, ast.Name) and n.id == "self" for n in ast.walk(c)):
+                return None
+            out.append(c)
+        return out
+    pre, post = conv(en_body), conv(ex_body)
+    if pre is None or post is None:
+        return None
+    bindv = []
+    if w.items[0].optional_vars is not None:
+        if en_val is None:
+            val = ast.Constant(value=None)
+        else:
+            t = SelfAttr()
+            val = t.visit(copy.deepcopy(en_val))
+            if any(isinstance(n, ast.Name) and n.id == "self" for n in ast.walk(val)):
+                return None
+        bindv = [ast.Assign(targets=[copy.deepcopy(w.items[0].optional_vars)], value=val)]
+    tr = ast.Try(body=bindv + w.body, handlers=[], orelse=[], finalbody=post or [ast.Pass()])
+    out = pre + [tr]
+    for st in out:
+        for n in ast.walk(st):
+            n._inl = True  # type: ignore[attr-defined]
+            if not hasattr(n, "lineno") and isinstance(n, (ast.expr, ast.stmt)):
+                ast.copy_location(n, w)
+        ast.fix_missing_locations(st)
+    return out
+
+
 def _falls_without_ret(stmts, ret) -> bool:
     """could the block complete without assigning ret? (conservative)"""
     def assigns(block) -> bool:
@@ -1359,7 +1504,24 @@ def _class_chain(modules, cls_name):
     return out
 
 
-def _inline_helpers(modules, ref_funcs, report) -> None:
+def _inline_helpers(modules, ref_funcs, report, ref_names=None) -> None:
+    # new methods (public or private) that merely construct an object: name -> (fn, class)   [for class-based context managers]
+    any_new = {}
+    for name, mi in modules.items():
+        reff = ref_funcs.get(name)
+        if reff is None:
+            continue
+        for n in mi.tree.body:
+            if isinstance(n, ast.ClassDef):
+                for b in n.body:
+                    if isinstance(b, FuncT) and f"{n.name}.{b.name}" not in reff and not b.name.startswith("__") and not b.decorator_list:
+                        any_new[b.name] = (b, n.name)
+    _CM_ENV[:] = [modules, ref_names or {}, any_new, None]
+    _inline_helpers_core(modules, ref_funcs, report)
+    _CM_ENV[:] = []
+
+
+def _inline_helpers_core(modules, ref_funcs, report) -> None:
     # candidates: new private functions/methods
     cands: dict[tuple, Candidate] = {}       # (module, class or None, name) -> Candidate
     for name, mi in modules.items():
@@ -1375,8 +1537,6 @@ def _inline_helpers(modules, ref_funcs, report) -> None:
                     if isinstance(b, FuncT) and (b.name.startswith("_") or is_cm) and not b.name.startswith("__") and f"{n.name}.{b.name}" not in reff:
                         cands[(name, n.name, b.name)] = Candidate(name, n.name, b)
     cands = {k: c for k, c in cands.items() if c.ok}
-    if not cands:
-        return
     by_name: dict[str, list[Candidate]] = {}
     for c in cands.values():
         by_name.setdefault(c.fn.name, []).append(c)
@@ -1387,7 +1547,7 @@ def _inline_helpers(modules, ref_funcs, report) -> None:
             if isinstance(n, FuncT):
                 defs[n.name] = defs.get(n.name, 0) + 1
     by_name = {k: v for k, v in by_name.items() if defs.get(k, 0) == 1}
-    if not by_name:
+    if not by_name and not _CM_ENV[2]:
         return
 
     singletons: dict[str, str] = {}        # module-level NAME = ClassName()
@@ -1418,6 +1578,8 @@ def _inline_helpers(modules, ref_funcs, report) -> None:
         return None
 
     def calls_candidates(fn) -> bool:
+        if _CM_ENV and _CM_ENV[2] and any(isinstance(n, ast.With) for n in ast.walk(fn)):
+            return True
         return any(isinstance(n, ast.Call) and ((isinstance(n.func, ast.Name) and n.func.id in by_name) or (isinstance(n.func, ast.Attribute) and n.func.attr in by_name)) for n in ast.walk(fn))
 
     for _round in range(4):
@@ -1512,6 +1674,13 @@ def _inline_in_block(owner, field, mod, cls, resolve, by_name, report) -> bool:
                     continue
                 except _NoInline as e:
                     report["not_inlined"].append(f"{r[0].fn.name}: {e}")
+        if isinstance(s, ast.With) and len(s.items) == 1 and isinstance(s.items[0].context_expr, ast.Call) and _CM_ENV:
+            exp = _class_cm_expand(s, *_CM_ENV)
+            if exp is not None:
+                block[i:i + 1] = exp
+                report["inlined"].append(f"class-based context manager -> {getattr(owner, 'name', '?')}")
+                changed = True
+                continue
         if isinstance(s, ast.For) and isinstance(s.iter, ast.Call) and not s.orelse:
             r = resolve(s.iter, mod, cls)
             if r is not None and r[0].gen and r[0].fn is not owner:
@@ -2000,7 +2169,7 @@ def normalise(modules: dict, pkg: str = "rtflite") -> dict:
                 if _expand_table_code(fn, allow, report):
                     report["folded"] += _fold_function(fn)
     table_pass()
-    _inline_helpers(modules, ref_funcs, report)
+    _inline_helpers(modules, ref_funcs, report, ref_names)
     _inline_closures(modules, ref_funcs, report)
     if report["inlined"]:
         table_pass()
